@@ -533,7 +533,7 @@ func init() {
 			c := a[0].(*term.Term)
 			if b, ok := c.BoolVal(); ok {
 				if !b {
-					panic(pathEnd{endAssume, ""})
+					panic(pathEnd{endAssume, "Assume(false) at " + in.Prog.Fset.Position(in.curPos).String()})
 				}
 				return Tuple(nil)
 			}
